@@ -680,8 +680,11 @@ def valid_case(item):
                 if k == 9:
                     if not (val[0] == 1 and W._utf8_ok(val[1])):
                         return False
-                elif not W.rich_attrs_ok([[k, rp, val]], k == 7, W.Ctx()):
-                    return False
+                else:
+                    tctx = W.Ctx()
+                    tctx.typed_root = True
+                    if not W.rich_attrs_ok([[k, rp, val]], k == 7, tctx):
+                        return False
                 if not W.wide_ok(rest, W.Ctx().child(0)):
                     return False
             return W.no17(t1[2])
